@@ -28,6 +28,8 @@ import (
 	"io"
 	"path/filepath"
 	"runtime"
+	"sort"
+	"strings"
 	"sync"
 	"testing"
 	"time"
@@ -37,6 +39,7 @@ import (
 	"github.com/nuts-foundation/go-stoabs/bbolt"
 	"github.com/nuts-foundation/nuts-node/core"
 	"github.com/nuts-foundation/nuts-node/crypto/hash"
+	"github.com/nuts-foundation/nuts-node/jsonld"
 	"github.com/nuts-foundation/nuts-node/network/dag"
 	"github.com/nuts-foundation/nuts-node/network/transport"
 	"github.com/nuts-foundation/nuts-node/storage"
@@ -54,11 +57,48 @@ const c14eBudget = 20
 type c14eSub struct {
 	Type string `json:"t"`    // event type the filter selects: transaction | payload
 	Fail []int  `json:"fail"` // calls 1..Fail[i % len] for transaction i answer with an error, later ones complete
+	// Err: what the failing calls for transaction i answer with, Err[i % len] (empty list: plain).
+	//   plain    an ordinary error
+	//   ctx      a JSON-LD context that is not on the allow list: the error chain and its text end in
+	//            jsonld.ContextURLNotAllowedErr ("context not on the remoteallowlist")
+	//   ctxmid   the same cause, followed by more text (the recorded last error contains the phrase but does not end in it)
+	//   ctxlate  plain for the calls of the first life (1, 2), the unknown context from call 3 on
+	//   ctxearly the unknown context for the calls of the first life, plain from call 3 on
+	Err []string `json:"err,omitempty"`
 }
 
 type c14eAttempt struct {
 	Shelf int `json:"shelf"` // subscriber whose job shelf is hit (modulo)
 	Nth   int `json:"nth"`   // the Nth read of that shelf in this life fails once (0 = no fault)
+	// Sleepy: this life runs with a retry delay of one hour like the first one: Run() delivers every pending job once, the
+	// retry loop of a failing one makes its first retry at once and falls asleep, so the NEXT start again finds several jobs
+	// with budget left (now with the last-error texts of calls 3 / 4)
+	Sleepy bool `json:"sleepy,omitempty"`
+}
+
+// c14eUnknownCtx: jobs whose recorded last error ends in this phrase are left alone by the start-up replay (Notifier.Run:
+// "Do not retry events that previously failed on an unknown context", issue 2569); they stay on the shelf.
+func c14eUnknownCtx(lastError string) bool {
+	return strings.HasSuffix(lastError, jsonld.ContextURLNotAllowedErr.Error())
+}
+
+func (s c14eSub) errKind(tx int) string {
+	if len(s.Err) == 0 {
+		return "plain"
+	}
+	return s.Err[tx%len(s.Err)]
+}
+
+// c14eErr is the error of failing call n (counted over all lives) of a subscriber with the given kind.
+func c14eErr(kind string, n int) error {
+	ctx := fmt.Errorf("verif: loading document failed: %w", jsonld.ContextURLNotAllowedErr)
+	switch {
+	case kind == "ctx", kind == "ctxlate" && n > 2, kind == "ctxearly" && n <= 2:
+		return ctx
+	case kind == "ctxmid":
+		return fmt.Errorf("%w (verif: while expanding the credential)", jsonld.ContextURLNotAllowedErr)
+	}
+	return errors.New("verif: receiver failed")
 }
 
 type c14eCase struct {
@@ -77,6 +117,10 @@ func c14eGen(t *rapid.T) c14eCase {
 		for k := 0; k < n; k++ {
 			s.Fail = append(s.Fail, rapid.SampledFrom([]int{0, 1, 2, 3, 3, 5, 5, 8, 25, 25}).Draw(t, "fail"))
 		}
+		ne := rapid.IntRange(1, 4).Draw(t, "nerr")
+		for k := 0; k < ne; k++ {
+			s.Err = append(s.Err, rapid.SampledFrom([]string{"plain", "plain", "plain", "plain", "ctx", "ctx", "ctxmid", "ctxlate", "ctxearly"}).Draw(t, "err"))
+		}
 		c.Subs = append(c.Subs, s)
 	}
 	na := rapid.IntRange(1, 3).Draw(t, "attempts")
@@ -84,6 +128,7 @@ func c14eGen(t *rapid.T) c14eCase {
 		c.Attempts = append(c.Attempts, c14eAttempt{
 			Shelf: rapid.IntRange(0, 2).Draw(t, "shelf"),
 			Nth:   rapid.SampledFrom([]int{0, 1, 1, 1, 1, 2, 3}).Draw(t, "nth"),
+			Sleepy: rapid.IntRange(0, 2).Draw(t, "sleepy") == 0,
 		})
 	}
 	return c
@@ -236,7 +281,7 @@ func (w *c14eWorld) open(delay time.Duration) *c14eLife {
 			life.calls[k]++
 			tx, known := w.byRef[ev.Hash]
 			if known && w.total[k] <= w.failCount(si, tx) {
-				return false, errors.New("verif: receiver failed")
+				return false, c14eErr(w.c.Subs[si].errKind(tx), w.total[k])
 			}
 			w.oks[k] = true
 			return true, nil
@@ -311,16 +356,19 @@ func (w *c14eWorld) stop() {
 	_ = life.kv.Close(context.Background())
 }
 
-type c14eJob struct{ Retries int }
+type c14eJob struct {
+	Retries int
+	Error   string
+}
 
 func (w *c14eWorld) jobs(si int) map[hash.SHA256Hash]c14eJob {
 	out := map[hash.SHA256Hash]c14eJob{}
-	failed, _ := dagJobs(w.life.kv.inner, w.shelf(si), func(ref hash.SHA256Hash, retries int) { out[ref] = c14eJob{retries} })
+	failed, _ := dagJobs(w.life.kv.inner, w.shelf(si), func(ref hash.SHA256Hash, retries int, lastErr string) { out[ref] = c14eJob{retries, lastErr} })
 	w.x.NoErr(failed, "read job shelf")
 	return out
 }
 
-func dagJobs(kv stoabs.KVStore, shelf string, fn func(hash.SHA256Hash, int)) (error, int) {
+func dagJobs(kv stoabs.KVStore, shelf string, fn func(hash.SHA256Hash, int, string)) (error, int) {
 	n := 0
 	err := kv.ReadShelf(context.Background(), shelf, func(r stoabs.Reader) error {
 		return r.Iterate(func(k stoabs.Key, v []byte) error {
@@ -328,7 +376,7 @@ func dagJobs(kv stoabs.KVStore, shelf string, fn func(hash.SHA256Hash, int)) (er
 			if err := ev.UnmarshalJSON(v); err != nil {
 				return err
 			}
-			fn(hash.FromSlice(k.Bytes()), ev.Retries)
+			fn(hash.FromSlice(k.Bytes()), ev.Retries, ev.Error)
 			n++
 			return nil
 		}, stoabs.BytesKey{})
@@ -380,7 +428,11 @@ func c14eRun(x *h.Ctx, c c14eCase) {
 		if ai == len(attempts)-1 {
 			at = c14eAttempt{}
 		}
-		life := w.open(time.Nanosecond)
+		delay := time.Nanosecond
+		if at.Sleepy {
+			delay = time.Hour
+		}
+		life := w.open(delay)
 		// what this life finds on the shelves
 		type found struct {
 			si  int
@@ -389,8 +441,37 @@ func c14eRun(x *h.Ctx, c c14eCase) {
 		}
 		var start []found
 		for si := range c.Subs {
-			for ref, j := range w.jobs(si) {
+			jobs := w.jobs(si)
+			refs := make([]hash.SHA256Hash, 0, len(jobs))
+			for ref := range jobs {
+				refs = append(refs, ref)
+			}
+			sort.Slice(refs, func(i, j int) bool { return bytes.Compare(refs[i].Slice(), refs[j].Slice()) < 0 }) // shelf order
+			ctxSeen, ctxBeforeOwed, ctxAfterOwed, owedSeen := false, false, false, false
+			for _, ref := range refs {
+				j := jobs[ref]
 				start = append(start, found{si, ref, j})
+				switch {
+				case c14eUnknownCtx(j.Error):
+					ctxSeen = true
+					if owedSeen {
+						ctxAfterOwed = true
+					}
+				case j.Retries < c14eBudget:
+					owedSeen = true
+					if ctxSeen {
+						ctxBeforeOwed = true
+					}
+				}
+			}
+			if ctxBeforeOwed {
+				x.Class("shelf-at-start:unknown-context-job-before-owed-job")
+			}
+			if ctxAfterOwed {
+				x.Class("shelf-at-start:unknown-context-job-after-owed-job")
+			}
+			if ctxSeen && !owedSeen {
+				x.Class("shelf-at-start:unknown-context-job-only")
 			}
 		}
 		// arm the fault now that the shelves are known: reads 1 .. 1+jobs of a shelf are Run()'s own (the listing, then one job
@@ -399,8 +480,8 @@ func c14eRun(x *h.Ctx, c c14eCase) {
 		target := at.Shelf % len(c.Subs)
 		onTarget := 0
 		for _, f := range start {
-			if f.si == target {
-				onTarget++
+			if f.si == target && !c14eUnknownCtx(f.job.Error) {
+				onTarget++ // (a job left alone by Run() is not read)
 			}
 		}
 		if at.Nth > 0 {
@@ -409,7 +490,10 @@ func c14eRun(x *h.Ctx, c c14eCase) {
 			life.kv.mu.Unlock()
 		}
 		err := life.net.Start()
-		w.waitQuiet("after start", false)
+		w.waitQuiet("after start", at.Sleepy)
+		if at.Sleepy {
+			x.Class("start:sleepy-life")
+		}
 		hit := life.kv.hits > 0
 		switch {
 		case at.Nth == 0:
@@ -446,6 +530,12 @@ func c14eRun(x *h.Ctx, c c14eCase) {
 				fault = "fault"
 			}
 			switch {
+			case c14eUnknownCtx(f.job.Error) && calls == 0:
+				// left alone by design: no delivery is owed, but the job must stay where it is
+				if !still && !ok {
+					x.Violate("job-vanished-after-start", "start attempt %d: the job of subscriber %d for transaction %d (last error: unknown context) is gone although the receiver never completed", ai+1, f.si, tx)
+				}
+				x.Class("start-leaves-unknown-context-job-alone")
 			case f.job.Retries >= c14eBudget || (hit && f.si == target && life.kv.nth > 1 && f.job.Retries >= c14eBudget-1):
 				// budget spent in an earlier life (or its last attempt went into the delivery whose job read failed, which
 				// spends an attempt without reaching the receiver): nothing more is owed, but the job stays visible
@@ -456,7 +546,7 @@ func c14eRun(x *h.Ctx, c c14eCase) {
 			case calls == 0:
 				x.Violate("pending-job-not-resumed-by-successful-start", "start attempt %d (%s: read %d of %s) returned nil, but the job of subscriber %d for transaction %d (%d retries recorded) was not delivered by this life",
 					ai+1, fault, at.Nth, w.shelf(at.Shelf%len(c.Subs)), f.si, tx, f.job.Retries)
-			case still && !ok && now.Retries < c14eBudget-1:
+			case still && !ok && now.Retries < c14eBudget-1 && !at.Sleepy:
 				// (-1: a delivery attempt whose job read failed spends an attempt without recording it)
 				x.Violate("retry-loop-not-running-after-start", "start attempt %d returned nil and nothing runs any more, but the job of subscriber %d for transaction %d has %d retries (budget %d) and was never completed",
 					ai+1, f.si, tx, now.Retries, c14eBudget)
